@@ -4,6 +4,7 @@ func init() {
 	vHarnesses["H_C10_update"] = H_C10_update
 	vHarnesses["H_C10_update_deep"] = H_C10_update_deep
 	vHarnesses["H_C10_malformed"] = H_C10_malformed
+	vHarnesses["H_C10_update_lists"] = H_C10_update_lists
 }
 
 type vAddr struct {
@@ -172,11 +173,20 @@ func H_C10_update() {
 }
 
 func H_C10_update_deep() {
-	d, s := 4, 3
+	d, s := 5, 3
 	if vTier() == 1 {
 		d, s = 6, 4
 	}
 	vC10(vSpec{Depth: d, Width: 1, Kinds: "mlsn", KeyAlpha: "ab", KeyMin: 1, KeyMax: 1, StrAlpha: "xy", StrMin: 1, StrMax: 1}, s, false)
+}
+
+// lists of maps under the addressed key, with sub-keys that match members but not the parent
+func H_C10_update_lists() {
+	d := 4
+	if vTier() == 1 {
+		d = 5
+	}
+	vC10(vSpec{Depth: d, Width: 2, MapWidth: 1, Kinds: "mls", KeyAlpha: "a", KeyMin: 1, KeyMax: 1, StrAlpha: "xy", StrMin: 1, StrMax: 1}, 2, true)
 }
 
 // malformed new values are rejected with an error and without touching the Map
